@@ -22,18 +22,13 @@ import VectorModel.Gen.Real.spatial_transform3D
 import VectorModel.Gen.Real.spatial_deltaeta
 import VectorModel.Gen.Real.spatial_deltaR2
 import VectorModel.Gen.Real.spatial_deltaR
+import VectorModel.Gen.Real.spatial_deltaangle
 import Mathlib.Analysis.SpecialFunctions.Arsinh
 import Mathlib.Analysis.SpecialFunctions.Complex.Arg
 import Mathlib.Tactic.NormNum
 
 namespace VR
 open VK Spec Real
-
-/-! ### the converters by key: `planar_x.eval`, `planar_y.eval`, `spatial_z.eval` -/
-
-/-- hypothesis-free on the non-θ keys, `cos θ ≠ 0` on the θ keys -/
-private theorem zconv (k0 : Az) (k1 : Lon) (a b c : ℝ) (h : TanOK k1 c) :
-    spatial_z.eval k0 k1 a b c = zOf k0 k1 a b c := refine_spatial_z k0 k1 a b c h
 
 /-! ### rotateX -/
 
@@ -343,5 +338,174 @@ example : 0 < rhoOf .xy 3 4 ∧ 0 < rhoOf .rhophi 2 7 ∧ CanonLon .xy .theta 3 
   have h : 0 < rhoOf .xy 3 4 := L.sqrt_sumsq_pos (Or.inl (by norm_num))
   have h' : 0 < rhoOf .rhophi 2 7 := by norm_num [rhoOf]
   exact ⟨h, h', ⟨h, one_pos, by linarith [two_le_pi]⟩, h'⟩
+
+/-! ### deltaangle = arccos (clamp (dot / |p₁| / |p₂|))
+
+The callees `spatial_dot` and `spatial_mag` are refined by other files (Refine/SpatialBin, Refine/SpatialAcc); the two
+facts needed here are re-proved privately so that this file does not depend on files still being written. -/
+
+private theorem cot_two_arctan_exp (η : ℝ) :
+    cos (2 * arctan (exp (-η))) / sin (2 * arctan (exp (-η))) = sinh η := by
+  have hc : 0 < cos (arctan (exp (-η))) := cos_arctan_pos _
+  have hs : sin (arctan (exp (-η))) = exp (-η) * cos (arctan (exp (-η))) := by
+    have := tan_mul_cos (ne_of_gt hc)
+    rw [tan_arctan] at this; exact this.symm
+  rw [cos_two_mul', sin_two_mul, hs, sinh_eq]
+  generalize cos (arctan (exp (-η))) = c at hc ⊢
+  rw [exp_neg]
+  have he : 0 < exp η := exp_pos _
+  field_simp
+
+private theorem cot_arccos {ρ z m : ℝ} (hρ : 0 < ρ) (hm : m = ρ ^ 2 + z ^ 2) :
+    cos (arccos (z / sqrt m)) / sin (arccos (z / sqrt m)) = z / ρ := by
+  have hmpos : 0 < m := by rw [hm]; positivity
+  have hs : 0 < sqrt m := sqrt_pos.mpr hmpos
+  have hsq : sqrt m ^ 2 = m := sq_sqrt hmpos.le
+  have hz : z ^ 2 ≤ sqrt m ^ 2 := by rw [hsq, hm]; nlinarith [sq_nonneg ρ]
+  have habs : |z| ≤ sqrt m := abs_le_of_sq_le_sq' hz hs.le |> abs_le.mpr
+  have h1 : -1 ≤ z / sqrt m := by rw [le_div_iff₀ hs]; linarith [(abs_le.mp habs).1]
+  have h2 : z / sqrt m ≤ 1 := by rw [div_le_iff₀ hs]; linarith [(abs_le.mp habs).2]
+  rw [cos_arccos h1 h2, sin_arccos]
+  have : 1 - (z / sqrt m) ^ 2 = (ρ / sqrt m) ^ 2 := by
+    field_simp; rw [hsq, hm]; ring
+  rw [this, sqrt_sq (by positivity)]
+  field_simp
+
+private theorem inv_tan_mul (a b : ℝ) : 1 / (tan a * tan b) = (cos a / sin a) * (cos b / sin b) := by
+  rw [tan_eq_sin_div_cos, tan_eq_sin_div_cos, one_div, mul_inv, inv_div, inv_div]
+
+private theorem half_exp_sinh (η : ℝ) : 0.5 * (1 - exp (-η) ^ 2) / exp (-η) = sinh η := by
+  rw [sinh_eq, exp_neg]
+  have he : 0 < exp η := exp_pos _
+  field_simp
+  ring
+
+private theorem half_exp_cosh (e : ℝ) : (0.5 : ℝ) * (1 + exp (-e) ^ 2) / exp (-e) = cosh e := by
+  rw [cosh_eq, exp_neg]
+  have h : exp e ≠ 0 := exp_ne_zero e
+  field_simp
+  ring
+
+private theorem cot_theta_rhophi_eta (r p η : ℝ) :
+    cos (spatial_theta.rhophi_eta r p η) / sin (spatial_theta.rhophi_eta r p η) = sinh η := by
+  simp only [d_spatial_theta]; norm_num only; exact cot_two_arctan_exp η
+
+private theorem cot_theta_rhophi_z (r p z : ℝ) (hr : 0 < r) :
+    cos (spatial_theta.rhophi_z r p z) / sin (spatial_theta.rhophi_z r p z) = z / r := by
+  simp only [d_spatial_theta, d_spatial_costheta, d_spatial_mag, d_spatial_mag2, P.nanToNum_eq]
+  exact cot_arccos hr rfl
+
+/-- `dot` of every key is the Cartesian dot product of the denotations. The key `(ρφ,η)·(ρφ,z)` goes through
+`θ₂ = arccos (z₂/|p₂|)` and `1/tan θ₂`, which is singular for `ρ₂ = 0`: it needs `0 < ρ₂`. -/
+private theorem dot_key (k0 : Az) (k1 : Lon) (k2 : Az) (k3 : Lon) (a0 a1 a2 a3 a4 a5 : ℝ)
+    (h1 : TanOK k1 a2) (h2 : TanOK k3 a5)
+    (h3 : k0 = .rhophi → k1 = .eta → k2 = .rhophi → k3 = .z → 0 < a3) :
+    spatial_dot.eval k0 k1 k2 k3 a0 a1 a2 a3 a4 a5 = dot3 (cart3 k0 k1 a0 a1 a2) (cart3 k2 k3 a3 a4 a5) := by
+  have z1 := refine_spatial_z k0 k1 a0 a1 a2 h1
+  have z2 := refine_spatial_z k2 k3 a3 a4 a5 h2
+  cases k0 <;> cases k2 <;> cases k1 <;> cases k3 <;> simp only [spatial_z.eval] at z1 z2 <;>
+    simp only [d_spatial_dot, conv_x_xy, conv_x_rhophi, conv_y_xy, conv_y_rhophi, z1, z2, dot3, cart3]
+  all_goals simp only [inv_tan_mul, half_exp_sinh, cot_theta_rhophi_eta, xOf, yOf, zOf, rhoOf]
+  all_goals try (rw [cos_sub]; ring1)
+  · have h3 := h3 rfl rfl rfl rfl
+    rw [cot_theta_rhophi_z _ _ _ h3, cos_sub]
+    have := ne_of_gt h3
+    field_simp
+
+/-- `mag` of every key is `√(x² + y² + z²)` of the denotations (`0 ≤ ρ`; θ storage: `sin θ ≠ 0`) -/
+private theorem mag_key (k0 : Az) (k1 : Lon) (a b c : ℝ) (h2 : Canon2 k0 a b)
+    (hs : k1 = .theta → sin c ≠ 0) :
+    spatial_mag.eval k0 k1 a b c = sqrt (mag2Of k0 k1 a b c) := by
+  have hr : 0 ≤ rhoOf k0 a b := by
+    cases k0
+    · exact Real.sqrt_nonneg _
+    · exact h2
+  have hxy : xOf k0 a b ^ 2 + yOf k0 a b ^ 2 = rhoOf k0 a b ^ 2 := by
+    cases k0
+    · exact (L.sq_sqrt_sumsq a b).symm
+    · simp only [xOf, yOf, rhoOf]
+      linear_combination (a ^ 2) * (cos_sq_add_sin_sq b)
+  have lhs : spatial_mag.eval k0 k1 a b c =
+      match k1 with
+      | .z => sqrt (rhoOf k0 a b ^ 2 + c ^ 2)
+      | .theta => rhoOf k0 a b / |sin c|
+      | .eta => rhoOf k0 a b * cosh c := by
+    cases k0 <;> cases k1 <;>
+      simp only [d_spatial_mag, d_spatial_mag2, rhoOf, L.sq_sqrt_sumsq, half_exp_cosh]
+  rw [lhs]
+  unfold mag2Of
+  rw [hxy]
+  cases k1
+  · rfl
+  · have hs' : sin c ≠ 0 := hs rfl
+    simp only [zOf]
+    have e : rhoOf k0 a b ^ 2 + (rhoOf k0 a b * (cos c / sin c)) ^ 2 = (rhoOf k0 a b / |sin c|) ^ 2 := by
+      rw [div_pow, sq_abs]
+      field_simp
+      linear_combination (rhoOf k0 a b ^ 2) * (cos_sq_add_sin_sq c)
+    rw [e, Real.sqrt_sq (div_nonneg hr (abs_nonneg _))]
+  · simp only [zOf]
+    have e : rhoOf k0 a b ^ 2 + (rhoOf k0 a b * sinh c) ^ 2 = (rhoOf k0 a b * cosh c) ^ 2 := by
+      linear_combination (rhoOf k0 a b ^ 2) * (cosh_sq c).symm
+    rw [e, Real.sqrt_sq (mul_nonneg hr (cosh_pos c).le)]
+
+private theorem deltaangle_split (k0 : Az) (k1 : Lon) (k2 : Az) (k3 : Lon) (a b c d e f : ℝ) :
+    spatial_deltaangle.eval k0 k1 k2 k3 a b c d e f
+      = arccos (max (-1) (min 1 (spatial_dot.eval k0 k1 k2 k3 a b c d e f
+          / spatial_mag.eval k0 k1 a b c / spatial_mag.eval k2 k3 d e f))) := by
+  cases k0 <;> cases k1 <;> cases k2 <;> cases k3 <;> rfl
+
+/-- C02: `deltaangle` of every key is `arccos` of the clamped normalised dot product of the denotations.
+Hypotheses: `0 ≤ ρ` for polar storage, `cos θ ≠ 0` and `sin θ ≠ 0` for θ storage, and `0 < ρ₂` for the one key
+`(ρφ,η)·(ρφ,z)` whose `dot` variant divides by `tan (arccos (z₂/|p₂|))`.
+`_partial`: that last hypothesis is forced by the code, not by the property — for `ρ₂ = 0` (a representable vector on
+the z axis) the library computes `ρ₁·0·(cos Δφ + sinh η₁/tan 0)` = NaN instead of the angle. -/
+theorem refine_spatial_deltaangle_partial (k0 : Az) (k1 : Lon) (k2 : Az) (k3 : Lon) (a b c d e f : ℝ)
+    (hc1 : Canon2 k0 a b) (hc2 : Canon2 k2 d e) (ht1 : TanOK k1 c) (ht2 : TanOK k3 f)
+    (hs1 : k1 = .theta → sin c ≠ 0) (hs2 : k3 = .theta → sin f ≠ 0)
+    (h3 : k0 = .rhophi → k1 = .eta → k2 = .rhophi → k3 = .z → 0 < d) :
+    spatial_deltaangle.eval k0 k1 k2 k3 a b c d e f
+      = arccos (max (-1) (min 1 (dot3 (cart3 k0 k1 a b c) (cart3 k2 k3 d e f)
+          / sqrt (mag2Of k0 k1 a b c) / sqrt (mag2Of k2 k3 d e f)))) := by
+  rw [deltaangle_split, dot_key k0 k1 k2 k3 a b c d e f ht1 ht2 h3, mag_key k0 k1 a b c hc1 hs1,
+    mag_key k2 k3 d e f hc2 hs2]
+
+/-- C01: every key of `deltaangle` is the Cartesian key on the denotations -/
+theorem refine_spatial_deltaangle_key_partial (k0 : Az) (k1 : Lon) (k2 : Az) (k3 : Lon) (a b c d e f : ℝ)
+    (hc1 : Canon2 k0 a b) (hc2 : Canon2 k2 d e) (ht1 : TanOK k1 c) (ht2 : TanOK k3 f)
+    (hs1 : k1 = .theta → sin c ≠ 0) (hs2 : k3 = .theta → sin f ≠ 0)
+    (h3 : k0 = .rhophi → k1 = .eta → k2 = .rhophi → k3 = .z → 0 < d) :
+    spatial_deltaangle.eval k0 k1 k2 k3 a b c d e f
+      = spatial_deltaangle.eval .xy .z .xy .z (xOf k0 a b) (yOf k0 a b) (zOf k0 k1 a b c)
+          (xOf k2 d e) (yOf k2 d e) (zOf k2 k3 d e f) := by
+  rw [refine_spatial_deltaangle_partial k0 k1 k2 k3 a b c d e f hc1 hc2 ht1 ht2 hs1 hs2 h3]
+  rfl
+
+/-- the same under the representable-domain hypotheses `Canon3` (which give `0 < sin θ`, and `0 < ρ` for θ/η storage) -/
+theorem refine_spatial_deltaangle_canon_partial (k0 : Az) (k1 : Lon) (k2 : Az) (k3 : Lon) (a b c d e f : ℝ)
+    (hc1 : Canon3 k0 k1 a b c) (hc2 : Canon3 k2 k3 d e f) (ht1 : TanOK k1 c) (ht2 : TanOK k3 f)
+    (h3 : k0 = .rhophi → k1 = .eta → k2 = .rhophi → k3 = .z → 0 < d) :
+    spatial_deltaangle.eval k0 k1 k2 k3 a b c d e f
+      = spatial_deltaangle.eval .xy .z .xy .z (xOf k0 a b) (yOf k0 a b) (zOf k0 k1 a b c)
+          (xOf k2 d e) (yOf k2 d e) (zOf k2 k3 d e f) := by
+  refine refine_spatial_deltaangle_key_partial k0 k1 k2 k3 a b c d e f hc1.1 hc2.1 ht1 ht2 ?_ ?_ h3
+  · rintro rfl; exact (sin_pos_of_pos_of_lt_pi hc1.2.2.1 hc1.2.2.2).ne'
+  · rintro rfl; exact (sin_pos_of_pos_of_lt_pi hc2.2.2.1 hc2.2.2.2).ne'
+
+/-- the hypotheses of `refine_spatial_deltaangle_partial` are satisfiable on the key that needs all of them -/
+example : Canon2 .rhophi 2 7 ∧ TanOK .eta (-1) ∧ TanOK .z 5 ∧
+    ((Az.rhophi = .rhophi) → (Lon.eta = .eta) → (Az.rhophi = .rhophi) → (Lon.z = .z) → (0 : ℝ) < 3) :=
+  ⟨by norm_num [Canon2], trivial, trivial, fun _ _ _ _ => by norm_num⟩
+
+/-- the extra hypothesis `0 < ρ₂` of the key `(ρφ,η)·(ρφ,z)` cannot be dropped: at `ρ₂ = 0` the model's `dot`
+(the numerator of `deltaangle`) is `ρ₁·0·(…) = 0` (NaN in floating point: `0·∞`) while the Cartesian dot product of the
+denotations is `z₁ z₂ = sinh 1 ≠ 0`. -/
+theorem refine_spatial_deltaangle_counterexample :
+    spatial_dot.eval .rhophi .eta .rhophi .z 1 0 1 0 0 1 = 0 ∧
+    dot3 (cart3 .rhophi .eta 1 0 1) (cart3 .rhophi .z 0 0 1) = sinh 1 ∧ sinh (1 : ℝ) ≠ 0 := by
+  refine ⟨?_, ?_, ?_⟩
+  · simp only [d_spatial_dot, mul_zero, zero_mul]
+  · simp only [dot3, cart3, xOf, yOf, zOf, rhoOf, zero_mul, mul_zero, add_zero, zero_add, mul_one, one_mul]
+  · exact (sinh_pos_iff.mpr one_pos).ne'
 
 end VR
